@@ -44,3 +44,28 @@ Proof.
     apply name_invalid in EI; lia.
   - unfold is_a_valid_hand_rank. apply hr_eqb_eq. reflexivity.
 Qed.
+
+(* ---- six and seven cards: the reported rank describes the BEST five cards the hand contains --------- *)
+From CKC Require Import Proofs.CombFacts Proofs.HandFacts Proofs.TableFacts Proofs.TablesComplete Proofs.C02.
+
+Lemma cards_n_ok chk n ws :
+  (n = 6 \/ n = 7)%nat -> HandN n ws ->
+  exists s,
+    Subseq s ws /\ Hand5 s /\
+    let h := shape_of s in
+    let v := ordinal h in
+    v = best_value5 ws /\
+    rmap hr_from (hand_rank_value chk ws) = Ok (hr_from v) /\
+    rmap hr_from (hand_rank_value_validated chk ws) = Ok (hr_from v) /\
+    name_string (hr_name (hr_from v)) = category_name h /\
+    class_string (hr_class (hr_from v)) = class_name_spec h /\
+    is_invalid (hr_from v) = false.
+Proof.
+  intros Hn H.
+  destruct (attained_spec n ws ltac:(lia) H) as (s & Hs & _ & H5 & E).
+  destruct (value_n_spec chk n ws Hn H) as (A & _ & _ & B & _). cbv zeta in A, B.
+  destruct (cards_ok chk s H5) as (_ & _ & _ & _ & C5 & C6 & C7 & _). cbv zeta in C5, C6, C7.
+  exists s. split; [exact Hs|]. split; [exact H5|]. cbv zeta.
+  assert (Ev : ordinal (shape_of s) = best_value5 ws) by (symmetry; exact E).
+  split; [exact Ev|]. rewrite A, B, <- Ev. repeat split; assumption.
+Qed.
